@@ -3,10 +3,13 @@
 package main
 
 import (
+	"encoding/base64"
 	"encoding/binary"
+	"encoding/hex"
 	"fmt"
 	"hash/crc32"
 	"math/bits"
+	"strings"
 
 	"github.com/tonkeeper/tongo/boc"
 	"verifharness/h"
@@ -377,6 +380,33 @@ func refLie(c []byte, size, nrefs int, v uint64, g *h.G) []byte {
 
 // ------------------------------------------------------------------------------------------------------- generator
 
+var carrierTick int
+
+// emitCarriers: a bounded, deterministic sample of the byte inputs is also sent through the string / JSON entry
+// points, in every carrier form and mutilated (truncated, odd length, wrong alphabet, quoting debris).
+func emitCarriers(g *h.G, bs []byte) {
+	carrierTick++
+	hx := hex.EncodeToString(bs)
+	b64 := base64.StdEncoding.EncodeToString(bs)
+	forms := []string{hx, b64, "\"" + hx + "\"", strings.ToUpper(hx), "0x" + hx, base64.RawStdEncoding.EncodeToString(bs),
+		base64.URLEncoding.EncodeToString(bs), "\"" + hx, hx + "\"", "\"" + b64 + "\""}
+	k := carrierTick % len(forms)
+	pick := []string{forms[k], forms[(k+3)%len(forms)]}
+	// mutilations of the primary carriers, cycling through the cut points
+	if len(hx) > 0 {
+		cut := carrierTick % len(hx)
+		pick = append(pick, hx[:cut], hx[:len(hx)-1], hx[1:])
+	}
+	if len(b64) > 0 {
+		cut := carrierTick % len(b64)
+		pick = append(pick, b64[:cut], b64[:len(b64)-1], strings.TrimRight(b64, "=")+"=")
+	}
+	for _, s := range pick {
+		g.Count("carrier")
+		g.Emit("go.carrier", h.Hex([]byte(s)))
+	}
+}
+
 func emitInput(g *h.G, class string, bs []byte) {
 	hx := h.Hex(bs)
 	g.Count(class)
@@ -386,6 +416,9 @@ func emitInput(g *h.G, class string, bs []byte) {
 		g.Emit("boc.tostring", hx)
 	}
 	g.NonTrivial(hx)
+	if class == "seed_valid" || class == "dag_bomb" || g.N%12 == 0 {
+		emitCarriers(g, bs)
+	}
 }
 
 // bombBoc: k levels, every cell refers m times to the next one: 2·k+… bytes of input, m^k nodes unfolded.
@@ -532,6 +565,26 @@ func genC07(g *h.G) {
 			bs = append(append([]byte{}, h.MagicBytes[k]...), bs...)
 		}
 		emitInput(g, "random", bs)
+	}
+	// (d2) the string / JSON entry points on degenerate documents: empty, 1-3 characters, odd-length hex, bad
+	// alphabet, quoting debris; and bags with several roots (Cell.UnmarshalJSON must reject them)
+	for _, s := range []string{"", "0", "00", "0x", "0x0", "x", "=", "==", "====", "\"", "\"\"", "\"x", "\"0", "\"00\"", "zz", "b5e",
+		"b5ee9c7", "b5ee9c72", "te6cc", "te6ccg", "te6ccgE=", "te6c!", " ", "\n", "b5ee9c72 01", "\"b5ee9c72\"", "null", "{}", "\"\"\""} {
+		g.Count("carrier_degenerate")
+		g.Emit("go.carrier", h.Hex([]byte(s)))
+	}
+	for i := 0; i < 24; i++ {
+		t := g.RandTable(h.DagOpts{MaxCells: 2 + i%5, MaxBits: 24}, "rand")
+		roots := []int{0}
+		for k := 0; k <= i%3; k++ {
+			roots = append(roots, (k+i)%len(t))
+		}
+		bs := h.EmitBoc(g.RandEmitParams(t, len(roots), false), t, roots)
+		g.Count("carrier_multiroot")
+		g.Emit("go.carrier", h.Hex([]byte("\""+hex.EncodeToString(bs)+"\"")))
+		g.Emit("go.carrier", h.Hex([]byte(hex.EncodeToString(bs))))
+		g.Emit("go.carrier", h.Hex([]byte(base64.StdEncoding.EncodeToString(bs))))
+		emitInput(g, "multiroot_valid", bs)
 	}
 	// (e0) DAG bombs: tiny inputs whose unfolding is exponential (printing must stay within its visit budget)
 	for _, km := range [][2]int{{9, 4}, {10, 3}, {16, 2}, {17, 2}, {18, 2}, {23, 2}, {12, 4}, {30, 2}, {40, 3}, {60, 2}, {60, 4}} {
